@@ -4,7 +4,7 @@ import os, json
 NAMESPACE = 'C20'
 LEAN_TARGETS = ['MxV.Props.C20']
 THEOREMS = ['complex_publish_after_fill', 'group_publish_after_fill', 'attribute_tables_thread_safe', 'class_cells_known',
-            'class_mutables_known']
+            'class_mutables_known', 'no_provisional_publication']
 TRUSTED_BASE = ['Lean 4.33.0 kernel', 'axioms: propext, Quot.sound only',
                 'extract/shapes.py (AST -> statements of the two lazily filled get_xsd_attributes, inventory of class-level cells and mutable class attributes)',
                 "CPython's GIL: pre-emption at line granularity as exercised through sys.settrace; list/dict primitives atomic",
@@ -16,7 +16,7 @@ ASSUMPTIONS = ['free-threaded CPython builds and pre-emption inside a bytecode a
 def run(ctx):
     import sched, lib
     quick = ctx.tier == 'quick'
-    n, bad, herr, jobs = sched.run(ctx.seed, n_classes=24 if quick else 120, max_points=48 if quick else 240, all_points=False)
+    n, bad, herr, jobs = sched.run(ctx.seed, n_classes=24 if quick else 120, max_points=96 if quick else 320, all_points=False)
     if herr and len(herr) > n // 5:
         raise RuntimeError('schedule harness errors: %r' % herr[0])
     violations = []
@@ -26,7 +26,7 @@ def run(ctx):
     if not ctx.build_ok and not violations:
         violations.append({'replay': {'property': 'C20', 'kind': 'shape-theorem-broken', 'lazy_complex': shapes['lazy_complex'],
                                       'lazy_group': shapes['lazy_group'], 'class_level_writes': shapes['class_level_writes'],
-                                      'class_mutables': shapes['class_mutables'], 'no_failing_input_found': True,
+                                      'class_mutables': shapes['class_mutables'], 'provisional_publications': shapes.get('provisional_publications'), 'no_failing_input_found': True,
                                       'searched': '%d two-thread schedules' % n},
                            'suffix': ' no-failing-input-found'})
     return {'violations': violations, 'known': [], 'evaluations': n, 'distinct_nontrivial': n, 'traces': n, 'disagreements': len(bad),
